@@ -128,6 +128,8 @@ type BlockArgs struct {
 	ELRestart []int          `json:"el_restart,omitempty"`
 	SkewMs    map[string]int `json:"skew_ms,omitempty"` // node -> new wall-clock offset
 	Reexec    int            `json:"reexec,omitempty"`  // node+1 that executes the block a second time on a fork of its disk (C07)
+	ShadowDiff int           `json:"shadow_diff,omitempty"` // node+1 on whose pre-block disk the block is executed with and without its failed transactions
+	MultiSched int           `json:"multi_sched,omitempty"` // PrepareProposal is repeated under this many extra schedules and must give the same proposal
 }
 
 const maxRounds = 60
